@@ -198,12 +198,14 @@ def do_check(tier, seed, t0):
             totals["cases"] += a["cases"]
             totals["fault_free_cases"] += a["fault_free_cases"]
             totals["distinct_states"] += a["distinct_states"]  # states include the corpus type index; corpora differ
+            for k in a["fault_point_enumeration"]:
+                totals["fault_point_enumeration"][k] += a["fault_point_enumeration"][k]
         if viol_lines:
             break
 
     # known findings: excused only through the defect model, and only if listed
     listed = {f["id"]: f for f in known_findings("C06")}
-    kf_count = totals["verdicts"]["known_finding"]
+    kf_count = totals["verdicts"]["known_finding"] + totals["fault_point_enumeration"]["known_finding"]
     kf_lines = []
     if kf_count:
         kid = kf_seen["id"]
@@ -221,8 +223,9 @@ def do_check(tier, seed, t0):
 
     wall = time.time() - t0
     n = totals["cases"]
+    enum = totals["fault_point_enumeration"]
     coverage = {
-        "evaluations": n,
+        "evaluations": n + enum["sink_fault_points"] + enum["field_failure_points"],
         "distinct_nontrivial": totals["distinct_states"],
         "rule": "one evaluation = one seeded simulated run: a builder history (derive_more::__private::debug_tuple / field^k / finish|finish_non_exhaustive) "
                 "or a value of a twin-corpus type, whose fields are scripted foreign Debug parties (seeded chunk schedule over write_str/write_char/write_fmt/pad/"
@@ -239,6 +242,7 @@ def do_check(tier, seed, t0):
         "simulated_time": "not applicable — the system under simulation has no clock or timer",
         "fault_kinds_fired": totals["faults"],
         "fault_free_runs": totals["fault_free_cases"],
+        "fault_point_enumeration": dict(enum, note="every 64th sampled run is re-run under EVERY sink byte budget 0..len (full and transient) and with a failing step at every position of every top-level field script; counted in evaluations"),
         "reach_probes": totals["probes"],
         "layers": totals["layers"],
         "verdicts": totals["verdicts"],
